@@ -249,8 +249,36 @@ def _add_facts(facts, new):
     return frozenset(s)
 
 
+import re as _re
+
+
 def _kill(facts, var):
-    return frozenset(f for f in facts if not (f[0] == var or f[0].startswith(var + '.') or f[0].startswith(var + '[')))
+    out = []
+    for f in facts:
+        if f[0] == var or f[0].startswith(var + '.') or f[0].startswith(var + '['):
+            continue
+        if f[1] == 'cnd' and _re.search(r'(?<![A-Za-z0-9_])' + _re.escape(var) + r'(?![A-Za-z0-9_])', f[0]):
+            continue
+        out.append(f)
+    return frozenset(out)
+
+
+def cond_key(fn, cond):
+    """Refinement R3: a condition over locals/params and constants only evaluates the same way again as
+    long as none of its variables was stored in between.  Returns a text key or None."""
+    if cond is None:
+        return None
+    for n in walk(cond):
+        op = n.get('op')
+        if op in ('call', 'member', 'sub', 'str', 'flit', 'other', 'stmtexpr'):
+            return None
+        if op == 'un' and n['o'] in ('*', '&', 'post++', 'post--', 'pre++', 'pre--'):
+            return None
+        if op == 'ref' and n.get('rk') not in ('local', 'param', 'enum'):
+            return None
+        if op == 'bin' and n['o'] in ('=', '+=', '-=', '*=', '/=', '|=', '&=', '^=', '<<=', '>>=', '%='):
+            return None
+    return 'C:' + show(cond)
 
 
 def transfer(fn, ev, facts):
@@ -339,6 +367,11 @@ def find_path(fn, start, on_event, refine=True, start_facts=frozenset(), on_exit
             f2 = facts
             if refine and label in ('T', 'F') and sentinel_infeasible(fn, b.cond, label, facts):
                 continue
+            ck = cond_key(fn, b.cond) if (refine and label in ('T', 'F')) else None
+            if ck is not None:
+                other = 'F' if label == 'T' else 'T'
+                if (ck, 'cnd', other) in facts:
+                    continue
             if refine and label in ('T', 'F'):
                 new = cond_facts(fn, b.cond, label)
                 if new:
@@ -352,6 +385,10 @@ def find_path(fn, start, on_event, refine=True, start_facts=frozenset(), on_exit
                     if _contradicts(facts, new):
                         continue
                     f2 = _add_facts(facts, new)
+            if refine and label in ('T', 'F'):
+                ck2 = cond_key(fn, b.cond)
+                if ck2 is not None:
+                    f2 = frozenset(set(f2) | {(ck2, 'cnd', label)})
             stack.append((s, 0, f2, trail + [(s.id, s.line, '' if label is None else str(label))]))
 
     if start == 'entry':
